@@ -10,7 +10,7 @@
    denotation of the whole byte string) are checked by the strict decoder oracle on the C's bytes and have no theorem
    yet (they need the Coq `Spec.decode` of C04, which is another file). *)
 From Coq Require Import List NArith String.
-From Wbxml Require Import Model.Codec Model.TablesDefs Model.EncWbxml Model.TreeNorm Proofs.EncWbxmlProofs Proofs.EncWbxmlSerialize Proofs.EncWbxmlDenote.
+From Wbxml Require Import Model.Codec Model.TablesDefs Model.EncWbxml Model.TreeNorm Proofs.EncWbxmlProofs Proofs.EncWbxmlSerialize Proofs.EncWbxmlDenote Proofs.EncWbxmlAbs Proofs.EncWbxmlStrict2 Proofs.EncWbxmlDenote2.
 From Wbxml Require Model.Parser Model.Spec.
 Import ListNotations.
 Local Open Scope N_scope.
@@ -219,6 +219,55 @@ Theorem C06_strict_decoding_yields_normalised_source_partial : forall tblb TBL L
 Proof. exact strict_decode_of_encoding. Qed.
 Print Assumptions C06_strict_decoding_yields_normalised_source_partial.
 
+(* WIDENED FRAGMENT (grammar level).  Whenever the conversion succeeds on a tree whose tags are tokens 5..63 (not
+   binary-flagged) or names unknown to the tag table, with ANY attributes (token starts with or without value prefix, literal
+   starts, attribute value tokens, inline remainders, attribute code page switches), with text content, WITH OR WITHOUT
+   string table (table references, literal indices), with numeric, textual or anonymous public id, in a language without
+   typed values (not WV, DRMREL, SyncML, SI, EMN, OTA settings): the bytes are Spec.serialize of the abstract document
+   abs_doc2 (computed from the encoder's own final state), and that document is strict (Spec.strict_doc: table
+   NUL-terminated, every STR_T / literal / public-id index at the first octet of an entry).
+   Side conditions: the final table and the id string are shorter than 2^32 octets.
+   STILL OUTSIDE: typed content and typed attribute values, the SyncML MIME rewrite, binary-flagged (OPAQUE) content, CDATA,
+   PIs, embedded trees. *)
+Theorem C06_output_is_serialize_of_strict_doc_wide_partial : forall tbl l o tag attrs ch bs,
+  let e := enc_env l o in
+  plain_env e = true -> frag2_node e (NElt tag attrs ch) = true ->
+  enc_wbxml tbl l o [NElt tag attrs ch] = EOk bs ->
+  exists body st' root,
+    enc_body tbl l o [NElt tag attrs ch] = EOk (body, st') /\
+    abs_node e None (NElt tag attrs ch) (start_state e [NElt tag attrs ch]) = Some ([root], st') /\
+    ((let '(_, t, _) := header_table e st' in tbl_size t < 4294967296) ->
+     (match header_pid e with Some p => len p + 1 < 4294967296 | None => True end) ->
+     bs = Spec.serialize (abs_doc2 e st' root) /\ Spec.strict_doc (abs_doc2 e st' root) = true).
+Proof. exact enc_wbxml_wide. Qed.
+Print Assumptions C06_output_is_serialize_of_strict_doc_wide_partial.
+
+(* THE FULL STATEMENT for trees WITH ATTRIBUTES (string table off): tokens 5..63 tags, attributes with token starts
+   (value prefix stripped), attribute value tokens, inline remainders, attribute code page switches, text; numeric,
+   textual (id string as the whole table) or anonymous public id; every option tuple with use_strtbl = false.
+   The encoder's tables are the decoder's table L converted to bytes (to_blang L = Model/EncWbxmlTables.blang_of_lang L).
+   There is an abstract document d with  bytes = Spec.serialize d,  Spec.strict_doc d,  and
+   Spec.denote d = the events of the normalised source tree INCLUDING every attribute with its full value in order; hence
+   the proved strict decoder Spec.decode_lang returns exactly these events on the encoder's bytes.
+   Hypotheses: L's value rows are found again under their own (page, token) with their own name (vals_ok, a table
+   property), no extension table, each tag / attribute start of the tree is the row found under its (page, token)
+   (tree_ok2, true for trees the XML front end builds from L), octets < 256 without NUL, depth <= 1000, version <= 1.3.
+   STILL OUTSIDE the denotation theorem: string table on (one text becomes several character events: needs events modulo
+   merging), literal names, typed values, CDATA, binary content, embedded trees. *)
+Theorem C06_strict_decoding_yields_normalised_source_with_attributes_partial : forall tblb TBL L o tag attrs ch bs,
+  let e := enc_env (to_blang L) o in
+  o_use_strtbl o = false -> plain_env e = true -> vals_ok L = true -> l_exts L = None ->
+  frag2_node e (NElt tag attrs ch) = true -> tree_ok2 L 0 (NElt tag attrs ch) = true ->
+  find (fun x => l_id x =? l_id L) TBL = Some L ->
+  o_version o < 4 -> header_public_id e < 4294967296 -> header_public_id e <> 0 ->
+  (match header_pid e with Some p => Spec.bytes_okb p = true /\ len p + 1 < 4294967296 | None => True end) ->
+  enc_wbxml tblb (to_blang L) o [NElt tag attrs ch] = EOk bs ->
+  exists d, bs = Spec.serialize d /\ Spec.strict_doc d = true /\
+            Spec.denote_with TBL (Some L) d = Some (doc_events L e (o_keep_ws o) (NElt tag attrs ch)) /\
+            Spec.decode_lang TBL (l_id L) bs = Some (doc_events L e (o_keep_ws o) (NElt tag attrs ch)).
+Proof. exact strict_decode_of_encoding2. Qed.
+Print Assumptions C06_strict_decoding_yields_normalised_source_with_attributes_partial.
+
 (* the hypotheses are satisfiable: <p> a </p> in a one-tag language, trimmed, strictly decoded from the encoder's bytes *)
 Example C06_fragment_example :
   let L := mk_lang 9999 4 None None None (Some [mk_tag "p"%string 0 32 0]) None None None None in
@@ -231,3 +280,22 @@ Example C06_fragment_example :
     = Some [Parser.EvStartDoc 106 9999; Parser.EvStartElt (Parser.TagTok 0 32 [112]) []; Parser.EvChars [97];
             Parser.EvEndElt (Parser.TagTok 0 32 [112]); Parser.EvEndDoc].
 Proof. cbv zeta. repeat split; vm_compute; reflexivity. Qed.
+
+(* hypotheses of the attribute theorem are satisfiable: <p href="http://a.org/x" id="7"> b </p>, one language with an
+   attribute start carrying a value prefix and one attribute value token on another attribute page *)
+Example C06_attribute_fragment_example :
+  let L := mk_lang 9998 4 None None None (Some [mk_tag "p"%string 0 32 0])
+                   None (Some [mk_attr "href"%string (Some "http://"%string) 0 10; mk_attr "id"%string None 1 11])
+                   (Some [mk_val ".org/"%string 1 133]) None in
+  let o := mk_opts 1 false false true in
+  let t := NElt (TagTok 0 32 0 [112])
+                [mk_at (AttrTok 0 10 [104; 114; 101; 102] (Some [104; 116; 116; 112; 58; 47; 47])) [104; 116; 116; 112; 58; 47; 47; 97; 46; 111; 114; 103; 47; 120];
+                 mk_at (AttrTok 1 11 [105; 100] None) [55]]
+                [NText [32; 98; 32]] in
+  plain_env (enc_env (to_blang L) o) = true /\ vals_ok L = true /\ frag2_node (enc_env (to_blang L) o) t = true /\ tree_ok2 L 0 t = true /\
+  exists bs, enc_wbxml [] (to_blang L) o [t] = EOk bs /\
+             Spec.decode_lang [L] 9998 bs = Some (doc_events L (enc_env (to_blang L) o) false t).
+Proof.
+  cbv zeta. split; [vm_compute; reflexivity|]. split; [vm_compute; reflexivity|]. split; [vm_compute; reflexivity|].
+  split; [vm_compute; reflexivity|]. eexists. split; [vm_compute; reflexivity|vm_compute; reflexivity].
+Qed.
